@@ -433,6 +433,33 @@ def execute(sh, lab, base_id, ops, record):
             probs = ["invariant evaluation failed: %r" % (e,)]
         for p in probs[:2]:
             sh.violate("invariant", record, "%s: %s" % (who, p))
+    # ---- the finished format is a value: what the builder does next, and what a caller does with the lists and
+    # dictionaries a query handed out, does not change its answers ------------------------------------------------
+    for extra in (("cmd", "zzcont", ("zc",)), ("arg", "zzarg", "opt", False), ("opt", "zzopt", "Z"), ("copt", "zzcopt", "Y", ("zzalias",))):
+        try:
+            add_real(lab, b, extra)
+        except lab.reject:
+            pass
+        except Exception as e:
+            sh.violate("operation-exception-type", record, "adding %r after the format was built raised %r" % (extra, e))
+            return nontrivial
+    try:
+        for ib in (True, False):
+            f.get_command_names(ib).append(lab.mk(("cmd", "zzcaller", ())))
+            f.get_arguments(ib)["zzcaller"] = lab.mk(("arg", "zzcaller", "opt", False))
+            f.get_options(ib)["zzcaller"] = lab.mk(("opt", "zzcaller", None))
+            got_co = f.get_command_options(ib)
+            if isinstance(got_co, list):
+                got_co.append(lab.mk(("copt", "zzcaller2", None, ())))
+        fa2, fo2 = lab.real_answers(f, nargs, True)
+    except Exception as e:
+        sh.violate("query-raises", record, "query after further builder operations raised %r" % (e,))
+        return nontrivial
+    sh.count("format_is_a_value_checks")
+    d = diff(fa, fa2)
+    if d or fo != fo2:
+        sh.violate("format-changed-after-build", record, "the built format answers differently after the builder went on and a caller changed returned containers: " + (
+            "; ".join(d[:4]) if d else "listing order %r -> %r" % (fo, fo2)))
     # ---- constructor parity ---------------------------------------------------
     if all(op[0] == "add" for op in ops):
         lab2 = lab
@@ -577,7 +604,7 @@ def run(sh, spec):
 def finalize(tier, merged):
     c = merged["counters"]
     inc = []
-    for k in ("operations", "rejections", "atomicity_checks", "final_states", "constructor_checks", "config_stacks"):
+    for k in ("operations", "rejections", "atomicity_checks", "final_states", "constructor_checks", "config_stacks", "format_is_a_value_checks"):
         if not c.get(k):
             inc.append("counter %s is zero" % k)
     return {"inconclusive": inc}
